@@ -109,15 +109,21 @@ ArgsCheck.vos ArgsCheck.vok ArgsCheck.required_vos: ArgsCheck.v Graph.vos Sched.
 ArgsFacts.vo ArgsFacts.glob ArgsFacts.v.beautified ArgsFacts.required_vo: ArgsFacts.v Graph.vo GraphFacts.vo Sched.vo SchedInv.vo Dataflow.vo DenPre.vo Args.vo
 ArgsFacts.vio: ArgsFacts.v Graph.vio GraphFacts.vio Sched.vio SchedInv.vio Dataflow.vio DenPre.vio Args.vio
 ArgsFacts.vos ArgsFacts.vok ArgsFacts.required_vos: ArgsFacts.v Graph.vos GraphFacts.vos Sched.vos SchedInv.vos Dataflow.vos DenPre.vos Args.vos
+Ids.vo Ids.glob Ids.v.beautified Ids.required_vo: Ids.v 
+Ids.vio: Ids.v 
+Ids.vos Ids.vok Ids.required_vos: Ids.v 
+IdsFacts.vo IdsFacts.glob IdsFacts.v.beautified IdsFacts.required_vo: IdsFacts.v Ids.vo
+IdsFacts.vio: IdsFacts.v Ids.vio
+IdsFacts.vos IdsFacts.vok IdsFacts.required_vos: IdsFacts.v Ids.vos
 Properties/C01.vo Properties/C01.glob Properties/C01.v.beautified Properties/C01.required_vo: Properties/C01.v Graph.vo Sched.vo SchedInv.vo Dataflow.vo DataflowFacts.vo
 Properties/C01.vio: Properties/C01.v Graph.vio Sched.vio SchedInv.vio Dataflow.vio DataflowFacts.vio
 Properties/C01.vos Properties/C01.vok Properties/C01.required_vos: Properties/C01.v Graph.vos Sched.vos SchedInv.vos Dataflow.vos DataflowFacts.vos
 Properties/C02.vo Properties/C02.glob Properties/C02.v.beautified Properties/C02.required_vo: Properties/C02.v Graph.vo Sched.vo SchedInv.vo SchedGhost.vo
 Properties/C02.vio: Properties/C02.v Graph.vio Sched.vio SchedInv.vio SchedGhost.vio
 Properties/C02.vos Properties/C02.vok Properties/C02.required_vos: Properties/C02.v Graph.vos Sched.vos SchedInv.vos SchedGhost.vos
-Properties/C03.vo Properties/C03.glob Properties/C03.v.beautified Properties/C03.required_vo: Properties/C03.v Graph.vo Sched.vo SchedInv.vo SchedGhost.vo
-Properties/C03.vio: Properties/C03.v Graph.vio Sched.vio SchedInv.vio SchedGhost.vio
-Properties/C03.vos Properties/C03.vok Properties/C03.required_vos: Properties/C03.v Graph.vos Sched.vos SchedInv.vos SchedGhost.vos
+Properties/C03.vo Properties/C03.glob Properties/C03.v.beautified Properties/C03.required_vo: Properties/C03.v Ids.vo IdsFacts.vo Graph.vo Sched.vo SchedInv.vo SchedGhost.vo
+Properties/C03.vio: Properties/C03.v Ids.vio IdsFacts.vio Graph.vio Sched.vio SchedInv.vio SchedGhost.vio
+Properties/C03.vos Properties/C03.vok Properties/C03.required_vos: Properties/C03.v Ids.vos IdsFacts.vos Graph.vos Sched.vos SchedInv.vos SchedGhost.vos
 Properties/C04.vo Properties/C04.glob Properties/C04.v.beautified Properties/C04.required_vo: Properties/C04.v Graph.vo Sched.vo SchedInv.vo Reconf.vo ReconfFacts.vo
 Properties/C04.vio: Properties/C04.v Graph.vio Sched.vio SchedInv.vio Reconf.vio ReconfFacts.vio
 Properties/C04.vos Properties/C04.vok Properties/C04.required_vos: Properties/C04.v Graph.vos Sched.vos SchedInv.vos Reconf.vos ReconfFacts.vos
